@@ -174,8 +174,10 @@ fn witnesses() -> Vec<Case> {
         what: "witness-F39-empty-key-entry".into(),
         bytes: build(&[(&[], "空", 1, None), (&[CE4], "測", 1, None), (&[SHI4], "試", 3, None)], false),
     });
-    // F40: a valid file storing a frequency next to u32::MAX; the context is created, committing the
-    // phrase (learning) aborts in `estimate` (debug profile: add with overflow)
+    // F40 (repaired by a `fix:` commit: `saturating_add` in `estimate`): a valid file storing a frequency next to
+    // u32::MAX; the context is created and committing the phrase (learning) must clamp to MAX_USER_FREQ.  Before
+    // the repair the commit aborted in `estimate` (add with overflow); there is no oracle class for it any more,
+    // so a recurrence is reported as `new` with this file.
     v.push(Case {
         what: "witness-F40-max-frequency".into(),
         bytes: build(&[(&[CE4], "測", u32::MAX, None), (&[SHI4], "試", 3, None)], false),
@@ -649,8 +651,6 @@ fn main() {
                                 let c = &cs[plan[pi].0];
                                 let parts = catch_unwind(AssertUnwindSafe(|| Trie::new(&c.bytes[..]).ok().and_then(|t| trie_parts(&t)))).ok().flatten();
                                 let recs = parts.as_ref().map(|p| parse_index(&p.0)).unwrap_or_default();
-                                let data = parts.map(|p| p.1).unwrap_or_default();
-                                let addov = stderr.contains("estimate.rs") && stderr.contains("add with overflow");
                                 let oom = stderr.contains("memory allocation of");
                                 let f17 = stderr.contains("DecodeSyllableError") || stderr.contains("left != right");
                                 let sub = stderr.contains("subtract with overflow");
@@ -660,8 +660,6 @@ fn main() {
                                     "F17-zero-syllable-child"
                                 } else if !timeout && sub && empty_key_entry(&recs) {
                                     "F39-empty-key-entry"
-                                } else if !timeout && addov && huge_stored_freq(&recs, &data) {
-                                    "F40-stored-frequency-overflow"
                                 } else {
                                     "new"
                                 };
